@@ -4,9 +4,9 @@ open Datatypes
 
 module N :
  sig
-  val coq_lor : coq_N -> coq_N -> coq_N
+  val compare : coq_N -> coq_N -> comparison
 
-  val to_nat : coq_N -> nat
+  val eqb : coq_N -> coq_N -> bool
 
-  val of_nat : nat -> coq_N
+  val leb : coq_N -> coq_N -> bool
  end
